@@ -152,6 +152,10 @@ def gen_c19(tier, rng):
             if 0 <= i1 <= 255 and 0 <= i2 <= 255:
                 for isa in ("portable", "sse2", "avx2"):
                     cases.append(f"pppair isa={isa} x={hexs(x)} i1={i1} i2={i2}")
+    # Finder::new(needle) (i1 = i2 = 255 is the marker): the pair of Pair::new, reported back by pair()
+    for x in (b"", b"a", b"ab", b"aab", b"hello world", bytes(range(40)), b"z" * 300, bytes([(i * 7) % 256 for i in range(300)])):
+        for isa in ("portable", "sse2", "avx2"):
+            cases.append(f"pppair isa={isa} x={hexs(x)} i1=255 i2=255")
     return cases
 
 def oracle_c19(op, kv, res, trace, flags):
@@ -171,6 +175,13 @@ def oracle_c19(op, kv, res, trace, flags):
         ok = i1 != i2 and i1 < len(x) and i2 < len(x)
         want = f"Some({i1},{i2})" if ok else "None"
         return None if res == want else f"Pair::with_indices(len {len(x)}, {i1}, {i2}) returned {res}, expected {want}"
+    if op == "pppair" and kv["i1"] == "255" and kv["i2"] == "255":
+        if len(x) < 2:
+            return None if res == "NoPair" else f"{kv.get('isa')} packedpair::Finder::new on a needle of {len(x)} bytes gave {res}"
+        m = __import__("re").match(r"^Some\((\d+),(\d+)\)$", res)
+        if not m or m.group(1) == m.group(2) or int(m.group(1)) >= len(x) or int(m.group(2)) >= len(x) or max(int(m.group(1)), int(m.group(2))) > 254:
+            return f"{kv.get('isa')} packedpair::Finder::new(..).pair() reported {res} for a needle of {len(x)} bytes"
+        return None
     if op == "pppair":
         i1, i2 = int(kv["i1"]), int(kv["i2"])
         ok = i1 != i2 and i1 < len(x) and i2 < len(x)
@@ -323,6 +334,12 @@ def gen_memchr(op, tier, rng, backends=BACKENDS_X86):
     return cases
 
 def oracle_memchr(op, kv, res, trace, flags):
+    if op == "avail":
+        if res in ("?", "UnknownOp"):
+            return None
+        ok = not ((kv["isa"] == "avx2" and kv.get("cpu") in ("sse2", "none")) or (kv["isa"] == "sse2" and kv.get("cpu") == "none"))
+        want = "1111" if ok else "0000"
+        return None if res == want else f"{kv['isa']} searchers available = {res} under detection outcome {kv.get('cpu', 'host')}, expected {want}"
     ns = bytes.fromhex(kv["ns"]); h = bytes.fromhex(kv.get("h", ""))
     idx = [i for i, b in enumerate(h) if b in ns]
     if kv.get("raw") == "1":      # raw-pointer form: only [so, eo) may be searched (or even read)
@@ -341,9 +358,12 @@ def oracle_memchr(op, kv, res, trace, flags):
     return None
 
 def nontrivial_memchr(op, kv):
-    return len(kv.get("h", "")) >= 32   # at least 16 bytes: reaches vector code
+    return op != "avail" and len(kv.get("h", "")) >= 32   # at least 16 bytes: reaches vector code
 
-def gen_c01(tier, rng): return gen_memchr("find", tier, rng)
+def gen_c01(tier, rng):
+    # constructors of the x86 searchers report availability according to the (possibly forced) detection outcome
+    av = [f"avail isa={isa}" + (f" cpu={cpu}" if cpu else "") for isa in ("avx2", "sse2") for cpu in ("", "sse2", "none")]
+    return gen_memchr("find", tier, rng) + av
 def gen_c02(tier, rng): return gen_memchr("rfind", tier, rng)
 def gen_c07(tier, rng):
     # one-shot counts plus count() on partially consumed iterators (histories that contain C)
@@ -434,7 +454,7 @@ def gen_iter(tier, rng, backends=BACKENDS_X86, with_count=True):
             p0 = rng.randrange(0, n - 3)
             h[p0] = ns[0]; h[p0 + rng.randrange(1, 3)] = ns[-1]
         nm = sum(1 for x in h if x in ns)
-        alphabet = "NB" + ("S" if j % 2 else "") + ("C" if (ar == 1 and with_count and j % 4 < 2) else "")
+        alphabet = "NB" + ("S" if (j // 7) % 2 else "") + ("C" if (ar == 1 and with_count and j % 4 < 2) else "")
         L = min(nm + 3, 40)
         ops = "".join(rng.choice(alphabet) for _ in range(L))
         if j % 5 == 0:
